@@ -32,7 +32,7 @@ RULE = ('directed corpus (docstring examples, one message per rendering, D4/K12 
         '(per-rendering alphabet, length 1..40), surrounding class (rotating over 13) and mask per cell and round '
         '+ messages with 2..4 secrets + key-free messages (four alphabets that cannot spell a key, near-miss key '
         'spellings in every rendering). every message is non-trivial; distinct by (message, mask)')
-REQUIRED_CLAUSES = ['documented-keyword-call', 'b-no-leak (dash-leading secret)', 'a-exact-output', 'b-no-leak', 'c-idempotent', 'd-identity-without-key']
+REQUIRED_CLAUSES = ['first-use-under-recursion-pressure', 'documented-keyword-call', 'b-no-leak (dash-leading secret)', 'a-exact-output', 'b-no-leak', 'c-idempotent', 'd-identity-without-key']
 ASSUMPTIONS = [
     'expected output is composed from the generator components; the 35 keys are the list in the property '
     '(copied here, not imported from the code under test)',
@@ -47,7 +47,8 @@ ASSUMPTIONS = [
     'enforced on every message',
     'a quoted k="v" value that contains the other quote kind is observed (must not raise) but not asserted',
 ]
-SHARDS = {'quick': 1, 'thorough': 16}
+INTERPRETER_FLAGS = [[], ['-O'], [], ['-bb']]
+SHARDS = {'quick': 4, 'thorough': 16}
 MIN_DISTINCT = {'quick': 20000, 'thorough': 1000000}
 
 # ----------------------------------------------------------------------
@@ -66,7 +67,7 @@ GRID_VARIANTS = ['lower', 'UPPER', 'Capitalised', 'digits']      # the required 
 EXTRA_VARIANTS = ['mIxEd']                                       # "in any letter case": bonus column
 QUOTES = '\'"'
 
-NONASCII = 'éßüñøЖд漢字😀€¿½λ'
+NONASCII = 'éßüñøЖд漢字😀€¿½λ' + '\u0130\u0130\u0149\u01f0\u0390\ufb01\u1e9e'   # incl. characters whose case mappings change length (U+0130 ...)
 PUNCT = ''.join(c for c in string.punctuation if c not in QUOTES)     # includes ^ = < \ - and every regex meta
 REGEX_META = '.*+?()[]{}|\\$^'
 BASE = string.ascii_letters + string.digits + PUNCT + NONASCII
@@ -98,7 +99,7 @@ MASKS = [None, '***', '***', '*', 'XXXXXXXX', '[redacted]', '####', '(hidden)', 
 
 # four alphabets none of which can spell a key: every key has a letter outside each of them
 _LETTERS = string.ascii_lowercase
-_ID_PUNCT = ' ' * 8 + '.,;:()[]{}-_/+*#@!?%&|~$<>=\\^\'"' + string.digits + 'éß漢😀\n\t'
+_ID_PUNCT = ' ' * 8 + '.,;:()[]{}-_/+*#@!?%&|~$<>=\\^\'"' + string.digits + 'éß漢😀\n\t\u0130\ufb01'
 ID_ALPHABETS = {}
 for _drop in ('es', 'ade', 'cks', 'ept'):
     _a = ''.join(c for c in _LETTERS if c not in _drop)
@@ -176,7 +177,30 @@ def _char_class(c):
     return 'other punctuation'
 
 
+def eval_starved(ctx, case):
+    from oslo_utils import strutils
+    from vlib import envmodes
+    key, secret = case['key'], 'S3cr3tValueQ'
+    msg = 'request failed: %s=%s (retrying)' % (key, secret)
+    want = msg.replace(secret, '***')
+    res, exc = envmodes.call_at_depth(lambda: strutils.mask_password(msg), case['headroom'])
+    ctx.clause('first-use-under-recursion-pressure')
+    if exc is not None and not isinstance(exc, RecursionError):
+        ctx.fail('first-use-under-recursion-pressure', case, {'exc': exc})
+    elif exc is None and res != want:
+        ctx.fail('first-use-under-recursion-pressure', case, {'got': res, 'want': want})
+    try:
+        res2 = strutils.mask_password(msg)
+    except BaseException as e:  # noqa
+        res2 = e
+    if res2 != want:
+        ctx.fail('first-use-under-recursion-pressure', case,
+                 {'ordinary_call_after_starved_first_use': res2, 'want': want, 'starved_outcome': exc or res})
+
+
 def evaluate(ctx, case):
+    if case.get('kind') == 'starved':
+        return eval_starved(ctx, case)
     from oslo_utils import strutils
     from vlib import callstyle
     strutils = callstyle.proxy(strutils)
@@ -387,7 +411,7 @@ def neutral_words(rng, n):
 
 
 def neutral_random(rng, n, quotes):
-    pool = NEUTRAL_WORD * 2 + ' ' * 12 + '.,;:()[]{}-_/+*#@!?%&|~$<>=\\^' + 'éß漢😀' + (QUOTES * 3 if quotes else '')
+    pool = NEUTRAL_WORD * 2 + ' ' * 12 + '.,;:()[]{}-_/+*#@!?%&|~$<>=\\^' + 'éß漢😀\u0130\u0130\u0149\ufb01' + (QUOTES * 3 if quotes else '')
     return ''.join(rng.choice(pool) for _ in range(n))
 
 
@@ -680,6 +704,10 @@ def run(ctx):
         ctx.note('the code under test lists keys the property does not: %s' % extra)
     ctx.extra['keys listed by the code under test'] = len(repo_keys)
 
+    # ---- the very first use of every key in this process happens with almost no stack left (a log call from deep
+    # recursion): RecursionError is the only acceptable failure, and the ordinary call that follows hides the secret
+    for i, key in enumerate(KEYS):
+        eval_starved(ctx, {'kind': 'starved', 'key': key, 'headroom': 3 + (i * 7 + ctx.shard) % 40})
     # ---- known-finding canary (K12): the documented witness, every run
     if ctx.shard == 0:
         evaluate(ctx, K12_WITNESS)
